@@ -15,9 +15,9 @@ rm -rf "$WT"
 git -C /repo worktree add -q --detach "$WT" HEAD || exit 2
 export TMPDIR="/dev/shm/cf_tmp_${P}_$K"; rm -rf "$TMPDIR"; mkdir -p "$TMPDIR"
 cd "$WT" || exit 2
-PYTHONPATH="$WT/src" timeout 300 /venv/bin/python "$SRC/demo.py" >>"$LOG" 2>&1; clean=$?
+PYTHONPATH="$WT/src" timeout 1200 /venv/bin/python "$SRC/demo.py" >>"$LOG" 2>&1; clean=$?
 git apply "$SRC/patch.diff" >>"$LOG" 2>&1 || { echo "$P m$K: patch does not apply"; exit 2; }
-PYTHONPATH="$WT/src" timeout 300 /venv/bin/python "$SRC/demo.py" >>"$LOG" 2>&1; mutated=$?
+PYTHONPATH="$WT/src" timeout 1200 /venv/bin/python "$SRC/demo.py" >>"$LOG" 2>&1; mutated=$?
 PYTHONPATH="$WT/src" timeout 1500 /venv/bin/python -m pytest -q -p no:cacheprovider --timeout=900 -x --deselect "tests/test_create.py::test_roundtrip" >"$LOG.pytest" 2>&1; suite=$?
 tail -1 "$LOG.pytest" >>"$LOG"
 echo "$P m$K: demo clean=$clean mutated=$mutated suite_exit=$suite ($(tail -1 "$LOG.pytest"))"
